@@ -779,6 +779,10 @@ def conc_ops(fl):
         "exists A": {"op": "exists", "fl": fl, "sri": sA},
         "list": {"op": "list"},
         # a streamed writer whose commit is rejected (declared size wrong): its content is published, no index record
+        # several writers / a remover of one key, run while a reader is parked between its index step and its content step
+        "write k B; remove k; write k C": [{"op": "write", "fl": fl, "key": K, "data": B.hex(), "algo": "sha256"},
+                                           {"op": "remove", "fl": fl, "key": K},
+                                           {"op": "write", "fl": fl, "key": K, "data": b"content C?".hex(), "algo": "sha1"}],
         "rejected stream k2 A": [{"op": "open", "fl": fl, "w": 1, "key": K2, "size": 99, "algo": "sha256"},
                                  {"op": "wchunk", "w": 1, "data": A.hex(), "mode": "write_all"}, {"op": "commit", "w": 1}],
     }
@@ -859,6 +863,7 @@ def suite_conc(binf, tier, rng):
              ("write k A", "remove_hash A"), ("write k2 A", "remove_hash A"), ("write k B", "read k"), ("write k B", "metadata k"),
              ("write k B", "list"), ("list", "write k B"), ("remove k", "write k B"), ("remove_hash A", "write k2 A"),
              ("write_hash A", "remove_hash A"), ("remove k", "metadata k"), ("write k A", "read_hash A"), ("write_hash A", "exists A"),
+             ("read k", "write k B"), ("read k", "write k B; remove k; write k C"),
              ("rejected stream k2 A", "write k A"), ("write k A", "rejected stream k2 A")]
     if tier != "quick":
         names = list(ops)
